@@ -90,6 +90,12 @@ def run_case(case, tier):
                 bad("transfer_mismatch", "%s month %d: added to meat herd %.6f, dairy retired+male calves %.6f" % (a.animal_species, m, tp[m], want[m]), species=a.animal_species, month=m)
             if tp.max() > 0:
                 active["transfer"] += 1
+        elif a.animal_function != "milk":
+            # no dairy herd of this species: nothing can be transferred in
+            if np.abs(tp).max() > 1e-9:
+                m = int(np.abs(tp).argmax())
+                bad("transfer_without_dairy_herd", "%s month %d: %.6f head transferred into the herd but the species (%s) has no dairy herd" % (a.animal_type, m, tp[m], a.animal_species),
+                    species=a.animal_type, month=m)
         pre = pop[:-1] + inn - out - od
         if ((sl > pre + 1e-6 * np.maximum(1.0, pre)) & (sl > 1e-9)).any():
             m = int((sl - pre).argmax())
@@ -106,6 +112,12 @@ def run_case(case, tier):
         active["starve"] += st.max() > 0
         active["homekill"] += hk.max() > 0
         active["clamp"] += bool(((raw < 0) & (pop[:-1] > 0)).any())
+    # conservation over the whole run: head entering meat herds by transfer = head leaving dairy herds (retired + male calves)
+    tin_all = sum((L(a, "transfer_population") for a in animals if a.animal_function != "milk"), np.zeros(N))
+    tout_all = sum((L(a, "retiring_milk_animals") + L(a, "transfer_births") for a in animals if a.animal_function == "milk"), np.zeros(N))
+    if np.shape(tin_all) == np.shape(tout_all) and np.abs(tin_all - tout_all).max() > 1e-9 * max(1.0, float(np.max(tout_all))):
+        m = int(np.abs(tin_all - tout_all).argmax())
+        bad("transfer_not_conserved", "month %d: %.4f head entered meat herds by transfer, %.4f left dairy herds" % (m, tin_all[m], tout_all[m]), month=m)
     hours = h["hours"]
     if len(hours) != N:
         bad("hours_recorder", "slaughter-hour budget computed %d times in %d months" % (len(hours), N))
